@@ -6,7 +6,7 @@ package actionlint
 //
 // Space (finite, enumerated completely): every non-exempt scalar value position of the maximal
 // seeds (each governed by one key of the availability table, or by none) x 12 contexts + 5 special
-// functions x 8 embeddings (one of them inside the arguments of hashFiles). Oracle: vAvailability (appendix E, transcribed from GitHub's table).
+// functions x 12 embeddings (one of them inside the arguments of hashFiles, four as operands of comparisons / negation / index). Oracle: vAvailability (appendix E, transcribed from GitHub's table).
 
 import (
 	"fmt"
@@ -31,11 +31,14 @@ func c12Embeddings(name string, isFunc bool) []string {
 			// after another placeholder / another operand that is fine everywhere
 			"${{ 1 }} x ${{ " + call + " }}", "${{ 'a' == 'b' || " + call + " }}", "${{ " + call + " && 'a' || 'b' }}",
 			// inside the arguments of a special function (which is itself unavailable at most keys)
-			"${{ hashFiles(format('{0}', " + call + ")) }}"}
+			"${{ hashFiles(format('{0}', " + call + ")) }}",
+			// operand of a comparison whose other operand is of unknown / of known type, of a negation, an index
+			"${{ fromJSON(format('{0}', 1)) == " + call + " }}", "${{ " + call + " != fromJSON(format('{0}', 1)) }}", "${{ 1 < !" + call + " }}", "${{ fromJSON(format('{0}', 1))[" + call + "] }}"}
 	}
 	return []string{"${{ " + name + " }}", "${{ " + strings.ToUpper(name) + ".zz }}", "${{ 'a' && " + name + ".yy }}", "${{ toJSON(" + name + ") }}",
 		"${{ 1 }} x ${{ " + name + ".q }}", "${{ format('{0}{1}', 1, " + name + ") }}", "${{ " + name + ".c && 'a' || 'b' }}",
-		"${{ hashFiles('a', " + name + ".h) }}"}
+		"${{ hashFiles('a', " + name + ".h) }}",
+		"${{ fromJSON(format('{0}', 1)) == " + name + ".e }}", "${{ " + name + ".e != fromJSON(format('{0}', 1)) }}", "${{ 1 < !" + name + ".e }}", "${{ fromJSON(format('{0}', 1))[" + name + ".i] }}"}
 }
 
 func c12Allowed(avail, name string, isFunc bool) bool {
@@ -128,7 +131,7 @@ func c12Verdict(r *vReport, errs []*Error, rp map[string]any) {
 func TestVerifC12(t *testing.T) {
 	r := vNewReport("C12")
 	defer r.Write(t)
-	r.Extra["rule"] = "every non-exempt scalar value position of the 4 maximal seeds (its table key given by the documentation-derived schema) x 12 contexts + 5 special functions x 6 embeddings (bare, upper-cased, nested in &&, call argument, after another placeholder, second call argument, condition of a && b || c; for if: keys also without the ${{ }} marker), complete product; plus every position with one neighbour replaced by a value of another type / form x {secrets, github, always} x 2 embeddings; oracle = transcription of GitHub's context availability table; class = (table key, name, allowed?); non-trivial = not allowed"
+	r.Extra["rule"] = "every non-exempt scalar value position of the 4 maximal seeds (its table key given by the documentation-derived schema) x 12 contexts + 5 special functions x 12 embeddings (bare, upper-cased, nested in &&, call argument, after another placeholder, second call argument, condition of a && b || c, argument of hashFiles, right / left operand of == / != next to an operand of unknown type, negated operand of <, index; for if: keys also without the ${{ }} marker), complete product; plus every position with one neighbour replaced by a value of another type / form x {secrets, github, always} x 2 embeddings; oracle = transcription of GitHub's context availability table; class = (table key, name, allowed?); non-trivial = not allowed"
 	r.Extra["assumptions"] = []string{"the availability table is the transcription frozen in lib_catalogue.go (appendix E)", "for the jobs context outside workflow_call outputs 'undefined variable' counts as the report"}
 	if raw := vReplayInput(); raw != nil {
 		var rp map[string]any
@@ -278,7 +281,7 @@ func TestVerifC12(t *testing.T) {
 	r.Bounds["table_keys"] = len(vAvailability)
 	r.Bounds["contexts"] = len(vCtxAll)
 	r.Bounds["special_functions"] = len(vSpecialFuncs)
-	r.Bounds["embeddings"] = 8
+	r.Bounds["embeddings"] = 12
 	r.Bounds["full_product_at_variation_and_corpus_positions"] = vThorough()
 }
 
